@@ -39,6 +39,10 @@ pub struct FileSpec {
     /// Not visible to the directory walk: a dot-file/dot-directory or matched by .gitignore.
     #[serde(default)]
     pub unwalkable: bool,
+    /// Every start tag of this file is written with a TAB (not a blank) after `<block`: any
+    /// whitespace may follow the tag name.
+    #[serde(default)]
+    pub tab_tags: bool,
 }
 
 #[derive(Serialize, Deserialize, Clone, Debug, PartialEq, Default)]
@@ -357,9 +361,16 @@ pub fn quote_attr(value: &str) -> String {
 }
 
 pub fn render_start_tag(b: &BlockSpec) -> String {
+    render_start_tag_sep(b, ' ')
+}
+
+pub fn render_start_tag_sep(b: &BlockSpec, first_sep: char) -> String {
     let mut s = String::from("<block");
-    for (k, v) in &b.attrs {
-        s.push(' ');
+    if b.attrs.is_empty() && first_sep != ' ' {
+        s.push(first_sep);
+    }
+    for (i, (k, v)) in b.attrs.iter().enumerate() {
+        s.push(if i == 0 { first_sep } else { ' ' });
         s.push_str(k);
         s.push('=');
         s.push_str(&quote_attr(v));
@@ -407,6 +418,7 @@ pub const POISON_TAIL: &str = "<block name=\"poison-unclosed\" keep-sorted=\"asc
 
 fn render_block(
     b: &BlockSpec,
+    tab_tags: bool,
     leader: &str,
     idx_path: &mut Vec<usize>,
     lines: &mut Vec<String>,
@@ -414,7 +426,7 @@ fn render_block(
 ) {
     let slot = out.len();
     let start_line = lines.len() + 1;
-    lines.push(format!("{leader} {}", render_start_tag(b)));
+    lines.push(format!("{leader} {}", render_start_tag_sep(b, if tab_tags { '\t' } else { ' ' })));
     out.push(BlockLayout {
         path: idx_path.clone(),
         start_line,
@@ -428,7 +440,7 @@ fn render_block(
     }
     for (i, c) in b.children.iter().enumerate() {
         idx_path.push(i);
-        render_block(c, leader, idx_path, lines, out);
+        render_block(c, tab_tags, leader, idx_path, lines, out);
         idx_path.pop();
     }
     for l in &b.tail {
@@ -457,7 +469,7 @@ pub fn render_file(f: &FileSpec, poisoned: bool) -> RenderedFile {
     }
     for (i, b) in f.blocks.iter().enumerate() {
         let mut p = vec![i];
-        render_block(b, leader, &mut p, &mut lines, &mut blocks);
+        render_block(b, f.tab_tags, leader, &mut p, &mut lines, &mut blocks);
         if wrapper.is_none() {
             lines.push(String::new());
         }
